@@ -213,11 +213,15 @@ func runCheck(lockMode bool, repo, verif, prop, tier, only, dump string, useCach
 			continue
 		}
 		for _, o := range r.fv.obls {
-			q := buildQuery(prelude, r.fv, o)
-			jobs = append(jobs, &job{o: o, query: q})
+			qs := buildQueries(prelude, r.fv, o, []int{1, 2, 3})
+			q := qs[len(qs)-1]
+			jobs = append(jobs, &job{o: o, query: q, pruned: qs[:len(qs)-1]})
 			if dump != "" {
 				os.MkdirAll(dump, 0o755)
 				os.WriteFile(filepath.Join(dump, safeFile(o.Name)+".smt2"), []byte(q+"(check-sat)\n"), 0o644)
+				for pi, pq := range qs[:len(qs)-1] {
+					os.WriteFile(filepath.Join(dump, safeFile(o.Name)+fmt.Sprintf(".p%d.smt2", pi)), []byte(pq+"(check-sat)\n"), 0o644)
+				}
 			}
 		}
 	}
